@@ -1,6 +1,7 @@
 import Juniper.Proofs.BatchClose
 import Juniper.Proofs.BatchWaiter
 import Juniper.Proofs.BatchSize
+import Juniper.Proofs.BatchBg
 import Juniper.Model.Skeleton
 import Juniper.Generated.Skeleton
 /-!
@@ -25,14 +26,45 @@ theorem code_is_good : code = good := by decide
 /-- Tie 1, statement order facts the model relies on but cannot observe at quiescence: the producer
 defers `wg.Done()` first (so it runs last: the source is closed and `c` is closed before `Close`'s
 `wg.Wait()` can return), `Close` is `bgCancel(); wg.Wait()` over exactly two goroutines, the three
-channels are rendez-vous channels, and `timer.Reset` gets the same duration as `time.NewTimer`. -/
+channels are rendez-vous channels, and `timer.Reset` gets the same duration as `time.NewTimer`.
+Operand-level facts the transition relation hard-wires: `Batch` forwards `s` and `maxWait` unchanged
+to `BatchFunc`; `stopTimer` drains `timerC` exactly when `!stopped && timerC != nil` (the model's
+`stopTimer` never blocks: with Go's timers a value is in the channel whenever `Stop` reports false and
+`timerC` has not been received from — trusted runtime semantics); after a hand-over `flush` gives
+`batch` a fresh slice (the model's batches are values: a batch handed out is never written again).
+The statement lists of the batcher's branches, of which `code` reads single statements, are the
+expected ones as a whole. -/
 theorem code_order_facts :
     Gen.Batch.producerDefers = ["out.wg.Done()", "s.Close()", "close(c)"] ∧
     Gen.Batch.closeStmts = ["iter.bgCancel()", "iter.wg.Wait()"] ∧
     Gen.Batch.wgCount = 2 ∧
     Gen.Batch.unbufferedChans = Gen.Batch.chanMakes ∧
-    Gen.Batch.timerResetDur = Gen.Batch.timerDur := by
-  refine ⟨by decide, by decide, by decide, by decide, rfl⟩
+    Gen.Batch.timerResetDur = Gen.Batch.timerDur ∧
+    (Gen.Batch.batchCallArgs = ["s", "maxWait", "func"] ∧ ∀ mw, Gen.Batch.batchMaxWaitArg mw = mw) ∧
+    (Gen.Batch.stopTimerDrainCond = "!stopped && timerC != nil" ∧ Gen.Batch.stopTimerDrainChan = "timerC") ∧
+    Gen.Batch.flushBatchReset = "make([]T,0,…)" ∧
+    (Gen.Batch.fullStmts = ["stopTimer()", "if !flush() {", "return", "}"] ∧
+      Gen.Batch.firstItemStmts = ["batchStart = time.Now()", "if waitingAtEmpty {", "startTimer()", "}"] ∧
+      Gen.Batch.timerArmStmts = ["timerC = nil", "if !flush() {", "return", "}"] ∧
+      Gen.Batch.waitElapsedStmts = ["stopTimer()", "if !flush() {", "return", "}"] ∧
+      Gen.Batch.waitNotElapsedStmts = ["startTimer()"] ∧
+      Gen.Batch.waitEmptyStmts = ["waitingAtEmpty = true"]) := by
+  refine ⟨by decide, by decide, by decide, by decide, rfl, ⟨by decide, fun _ => rfl⟩, by decide, by decide, by decide⟩
+
+/-- Tie 1 for the stream's background context: the regenerated right-hand side of
+`bgCtx, bgCancel := …` is `context.WithCancel(context.Background())` (one assignment, nothing else
+ever assigns either name), the identifier `bgCancel` occurs nowhere in the package but in that
+definition, in `bgCancel: bgCancel` of the `batchStream` literal, in the field declaration and in
+`iter.bgCancel()` of `Close`; `bgCtx` occurs nowhere but as the argument of the producer's
+`s.Next(bgCtx)`, in the producer's own-cancellation guard and in the `<-bgCtx.Done()` arms of the
+hand-off and of `flush`. Hence (label `bgEnds` of the LTS, enabled iff `Code.bgMayEnd`) nothing but
+`Close` ends the background work: no deadline, no timer, no parent context. -/
+theorem bg_ctx_only_close_cancels :
+    code.BgTied ∧ code.bgMayEnd = false ∧ (∀ cfg s, step code cfg s .bgEnds = none) := by
+  refine ⟨by decide, by decide, ?_⟩
+  intro cfg s
+  have : code.bgMayEnd = false := by decide
+  simp [step, this]
 
 /-- Tie 1 for the control flow *between* the regenerated facts: the statement-kind skeletons of
 `Batch`, `BatchFunc`, its producer goroutine (three `defer`s; `for { Next; if End {break} else if <own
@@ -67,15 +99,20 @@ and the item in the producer's hand concatenate to exactly what the source has h
 batches returned by `Next` (failed calls erased) are exactly the hand-overs; always, what was handed
 out is a prefix of the source sequence; and once `Next` has reported `End`, the source did end and
 the concatenation of all returned batches **is** the source sequence. Nothing lost, nothing
-duplicated, nothing reordered, under any timing. -/
+duplicated, nothing reordered, under any timing. First conjunct (0): the regenerated facts this
+rests on beyond the arm tables — the background context ends only through `Close` (`Code.BgTied`:
+with a deadline on `bgCtx`, or `bgCancel` handed to a timer, the stream ends — `End`, or an error no
+source produced — while the source is still willing, see the examples below), and `flush` replaces the
+batch it handed out by a fresh slice. -/
 theorem batch_partition {cfg : Cfg} {s : State} (h : Reach code cfg s) :
+    (code.BgTied ∧ Gen.Batch.flushBatchReset = "make([]T,0,…)") ∧
     (s.bgCancelled = false → flat s.delivered ++ s.batch ++ inTransit s = s.pulled) ∧
     flat s.delivered <+: s.pulled ∧
     batchesOf s.results = s.delivered.map (·.items) ∧
     (.endOK ∈ s.results → s.srcTerm = some .eof ∧ (batchesOf s.results).flatten = s.pulled) := by
   have h2 := inv2_reach (reach_good h)
   have h3 := inv3_reach (reach_good h)
-  refine ⟨h2.a1, h2.a2, h2.g1, ?_⟩
+  refine ⟨⟨by decide, by decide⟩, h2.a1, h2.a2, h2.g1, ?_⟩
   intro he
   refine ⟨h3.r2 he, ?_⟩
   have := (h3.r1 _ he (Or.inl rfl)).2.2
@@ -88,6 +125,34 @@ example : ∃ s, Reach code (Cfg.ofBatch 10 2) s ∧ s.results = [.batch [7, 8],
     [.srcRet (.item 7), .prodSend, .fullRet false, .srcRet (.item 8), .nextCall true, .prodSend, .fullRet true,
      .deliver, .srcRet (.item 9), .prodSend, .fullRet false, .srcRet .eof, .prodCloseC, .recvCClosed,
      .nextCall true, .deliver, .batchExit, .nextCall true, .consClosed] rfl, by decide, by decide⟩
+
+/-- Non-vacuity of the dependence on `Code.BgTied` (1): the same code with a deadline on `bgCtx`
+(`context.WithTimeout(context.Background(), time.Minute)`). A consumer waits, nothing happens for a
+minute, the deadline passes (`bgEnds`), the source's `Next` returns `DeadlineExceeded`, which the
+producer's guard does not take for its own cancellation: `Next` reports an error although the source
+neither ended nor failed. -/
+example : ∃ s, Reach { good with bgOrigin := .deadline } (Cfg.ofBatch 10 2) s ∧ s.results = [.bgErr] ∧
+    s.srcTerm = none ∧ s.bgCancelled = false :=
+  ⟨_, reach_of_run Reach.init
+    [.nextCall true, .announce, .tick 60000, .bgEnds, .prodCancelled, .prodCloseC, .recvCClosed, .batchExit,
+     .consClosed] rfl, by decide, by decide, by decide⟩
+
+/-- (2): `bgCancel` also handed to a timer (`time.AfterFunc(time.Hour, bgCancel)`). An item is in the
+batch, the timer fires, the producer takes the `context.Canceled` for its own cancellation, the
+batcher's end-of-input `flush` takes its `<-bgCtx.Done()` arm: `Next` reports `End` although the source
+has not ended, and item 7 is lost. -/
+example : ∃ s, Reach { good with bgCancelOnlyInClose := false } (Cfg.ofBatch 10 2) s ∧ s.results = [.endOK] ∧
+    s.srcTerm = none ∧ s.pulled = [7] ∧ s.bgCancelled = false :=
+  ⟨_, reach_of_run Reach.init
+    [.srcRet (.item 7), .prodSend, .fullRet false, .tick 3600000, .bgEnds, .prodCancelled, .prodCloseC, .recvCClosed,
+     .flushAbort, .batchExit, .nextCall true, .consClosed] rfl, by decide, by decide, by decide, by decide⟩
+
+/-- (3): the producer gives the source another context (`s.Next(context.Background())`): after `Close`
+nothing can wake the producer — the state is quiescent and `Close` has not returned. -/
+example : ∃ s, Reach { good with srcNextGetsBg := false } (Cfg.ofBatch 10 2) s ∧ s.bgCancelled = true ∧
+    s.closeReturned = false ∧ s.ppc = .next ∧
+    internalLabels.all (fun l => (step { good with srcNextGetsBg := false } (Cfg.ofBatch 10 2) s l).isNone) = true :=
+  ⟨_, reach_of_run Reach.init [.close] rfl, by decide, by decide, by decide, by decide⟩
 
 /-- **Every batch is non-empty.** -/
 theorem batch_nonempty {cfg : Cfg} {s : State} (h : Reach code cfg s) :
@@ -148,18 +213,23 @@ theorem batch_underfilled_waited {cfg : Cfg} {s : State} (h : Reach code cfg s) 
     exact Or.inr (Or.inr ⟨Or.inr rfl, this.2, this.1, by omega⟩)
 
 /-- The same for `Batch`, in the property's words: a batch with fewer than `batchSize` items that is
-handed out before the source has ended has an oldest item that waited at least `maxWait`. -/
+handed out before the source has ended has an oldest item that waited at least `maxWait` — the
+`maxWait` given to `Batch`: `Batch` forwards it unchanged to `BatchFunc` (regenerated argument of that
+call, `hm` in the proof). -/
 theorem batch_underfilled_waited_batch {maxWait batchSize : Nat} (hn : 1 ≤ batchSize) {s : State}
     (h : Reach code (Cfg.ofBatch maxWait batchSize) s) :
     ∀ d ∈ s.delivered, d.items.length < batchSize →
       (d.reason = .srcEnd ∧ s.srcTerm ≠ none) ∨ d.firstAt + maxWait ≤ d.time := by
   intro d hd hlt
+  have hargs : Gen.Batch.batchCallArgs = ["s", "maxWait", "func"] := by decide
+  have hm : (Cfg.ofBatch maxWait batchSize).maxWait = maxWait := by
+    simp [Cfg.ofBatch, Gen.Batch.batchMaxWaitArg]
   have h5 := inv5_reach (sizeCfg_ofBatch maxWait batchSize hn) (reach_good h)
   rcases batch_underfilled_waited h d hd with hf | he | hw
   · have := h5.s4 d hd hf.1
     omega
   · exact Or.inl he
-  · exact Or.inr hw.2.2.2
+  · exact Or.inr (hm ▸ hw.2.2.2)
 
 example : ∃ s, Reach code (Cfg.ofBatch 10 3) s ∧
     s.delivered = [{ items := [7], firstAt := 0, start := 0, time := 10, reason := .timer, toWaiter := true }] :=
@@ -174,6 +244,7 @@ is enabled (the timer expires or its arm is taken), and from `flush` the hand-ov
 consumer is enabled and makes its `Next` return the batch. -/
 theorem batch_handed_to_waiter {cfg : Cfg} {s : State} (h : Reach code cfg s)
     (hw : s.cons = .inner) (hne : s.batch ≠ []) :
+    code.BgTied ∧
     (s.bpc = .sel → s.timer ≠ .idle ∧ s.timerCSet = true) ∧
     (s.bpc = .sel → s.batchStart + cfg.maxWait ≤ s.now →
       (step code cfg s .timerExpire).isSome = true ∨ (step code cfg s .recvTimer).isSome = true) ∧
@@ -182,6 +253,7 @@ theorem batch_handed_to_waiter {cfg : Cfg} {s : State} (h : Reach code cfg s)
   have h1 := inv1_reach (reach_good h)
   have h4 := inv4_reach (reach_good h)
   have hpos : 0 < s.batch.length := List.length_pos_iff.2 hne
+  refine ⟨by decide, ?_⟩
   rw [code_is_good]
   refine ⟨?_, ?_, ?_⟩
   · intro hb
@@ -216,10 +288,16 @@ ended normally); and once the error (or the end) has been reported no later `Nex
 (0) the regenerated guard of the producer's "my own cancellation" branch is false whenever `bgCtx` is
 live, whatever the error, and the producer / `Next` have no other statement between the source's
 `Next` and `out.err = err` resp. between the closed `batchC` and `return nil, iter.err` (regenerated
-control skeletons). -/
+control skeletons); and `bgCtx`, the only other thing that can make the source's `Next` fail, ends only
+through `Close` (`Code.BgTied`, regenerated: origin of `bgCtx`, every use of `bgCancel` and of `bgCtx`).
+So the error a `Next` reports is the source's, never the background context's (`bgErr`: with a
+deadline on `bgCtx` it would be `context.DeadlineExceeded` out of nowhere — example after
+`batch_partition`). -/
 theorem batch_error_after_items {cfg : Cfg} {s : State} (h : Reach code cfg s) :
     ((∀ errEq errIs, Gen.Batch.prodCancelGuard errEq errIs false false = false) ∧
-      Gen.Skeleton.batchProducer = Model.Skeleton.batchProducer ∧ Gen.Skeleton.batchNext = Model.Skeleton.batchNext) ∧
+      Gen.Skeleton.batchProducer = Model.Skeleton.batchProducer ∧ Gen.Skeleton.batchNext = Model.Skeleton.batchNext ∧
+      code.BgTied) ∧
+    (.bgErr ∉ s.results ∧ s.bgExpired = false) ∧
     (.srcErr ∈ s.results → s.srcTerm = some .err ∧ (batchesOf s.results).flatten = s.pulled) ∧
     (s.srcTerm = some .err → .endOK ∉ s.results) ∧
     (.endOK ∈ s.results → s.srcTerm = some .eof) ∧
@@ -227,7 +305,8 @@ theorem batch_error_after_items {cfg : Cfg} {s : State} (h : Reach code cfg s) :
       ∀ l s', step code cfg s l = some s' → batchesOf s'.results = batchesOf s.results) := by
   have h2 := inv2_reach (reach_good h)
   have h3 := inv3_reach (reach_good h)
-  refine ⟨⟨by decide, by decide, by decide⟩, ?_, ?_, h3.r2, ?_⟩
+  have h0 := inv0_reach (reach_good h)
+  refine ⟨⟨by decide, by decide, by decide, by decide⟩, ⟨h0.x3, h0.x1⟩, ?_, ?_, h3.r2, ?_⟩
   · intro he
     refine ⟨h3.r3 he, ?_⟩
     have := (h3.r1 _ he (Or.inr rfl)).2.2
@@ -274,7 +353,7 @@ theorem batch_ctx_costs_nothing {cfg : Cfg} {s s' : State} (h : Reach code cfg s
     s' = { s with cons := .idle, results := s.results ++ [.ctxErr] } ∧
     batchesOf s'.results = batchesOf s.results ∧
     (s'.bgCancelled = false → flat s'.delivered ++ s'.batch ++ inTransit s' = s'.pulled) := by
-  have hp := (batch_partition (Reach.step _ h hs)).1
+  have hp := (batch_partition (Reach.step _ h hs)).2.1
   simp only [step] at hs
   split at hs
   · cases hs
@@ -297,15 +376,16 @@ skeletons). -/
 theorem batch_close_returns {cfg : Cfg} (hfull : ∀ b, ∃ r, cfg.fullOK b r = true) {s : State}
     (h : Reach code cfg s) (hc : s.bgCancelled = true) :
     (Gen.Skeleton.batchClose = Model.Skeleton.batchClose ∧ Gen.Skeleton.batchFlush = Model.Skeleton.batchFlush ∧
-      Gen.Skeleton.batchStopTimer = Model.Skeleton.batchStopTimer) ∧
+      Gen.Skeleton.batchStopTimer = Model.Skeleton.batchStopTimer ∧ code.BgTied ∧
+      Gen.Batch.stopTimerDrainCond = "!stopped && timerC != nil" ∧ Gen.Batch.stopTimerDrainChan = "timerC") ∧
     (∀ l s', l.internal = true → step code cfg s l = some s' →
       s'.bgCancelled = true ∧ measure s' < measure s) ∧
     (Quiescent code cfg s → s.ppc = .done ∧ s.bpc = .done ∧ s.closeReturned = true) := by
   have h1 := inv1_reach (reach_good h)
   have h3 := inv3_reach (reach_good h)
+  refine ⟨⟨by decide, by decide, by decide, by decide, by decide, by decide⟩, ?_⟩
   rw [code_is_good]
-  exact ⟨⟨by decide, by decide, by decide⟩, fun l s' hl hs => measure_decreases h1 hc hl hs,
-    fun hq => quiescent_closed h3 (hfull _) hc hq⟩
+  exact ⟨fun l s' hl hs => measure_decreases h1 hc hl hs, fun hq => quiescent_closed h3 (hfull _) hc hq⟩
 
 /-- the producer is ahead (blocked handing over item 9 while the batcher holds a full batch nobody
 asked for) when Close is called — the situation of the repaired deadlock -/
@@ -320,15 +400,19 @@ and Close never overlap** (C09): the source's `Close` has been called at most on
 `Close` of the stream has returned; the source never saw `Next` after `Close`; while a `Next` of the
 source is pending its `Close` has not been called, and `Close` is only ever called by the goroutine
 that calls `Next`, after its last `Next` returned. The model runs the producer's deferred calls in
-the order `close(c)`, `s.Close()`, `wg.Done()`; that this is the source's order is `code_order_facts`. -/
+the order `close(c)`, `s.Close()`, `wg.Done()`; that this is the source's order is `code_order_facts`.
+First conjunct: the producer leaves its loop (and closes the source) only on the source's own
+end / error or after `Close` — `bgCtx` has no other way to end, and it is the context the source's
+`Next` is given (`Code.BgTied`, regenerated). -/
 theorem batch_source_closed_once {cfg : Cfg} {s : State} (h : Reach code cfg s) :
+    code.BgTied ∧
     s.srcCloses ≤ 1 ∧
     (s.closeReturned = true → s.srcCloses = 1) ∧
     s.srcNextAfterClose = false ∧
     (s.ppc = .next → s.srcCloses = 0) ∧
     (∀ s', step code cfg s .prodCloseSrc = some s' → s.ppc = .closeSrc) := by
   have h3 := inv3_reach (reach_good h)
-  refine ⟨?_, ?_, h3.h2, ?_, ?_⟩
+  refine ⟨by decide, ?_, ?_, h3.h2, ?_, ?_⟩
   · rw [h3.h1]; split <;> omega
   · intro hr; rw [h3.h1, (h3.h3 hr).1]; rfl
   · intro hp; rw [h3.h1, hp]; rfl
